@@ -729,7 +729,7 @@ def run(ctx):
     bound = 1 if ctx.quick else 2
     names = ['rr/u1u1u1', 'bf/u1u1u1', 'rr/n1u1n1', 'bf/n1u1n1']
     if not ctx.quick:
-        names += ['rr/u4u4u4u1', 'bf/u4u4u4u1', 'rr/n2n2u1', 'bf/n2n2u1']
+        names += ['rr/n2n2u1', 'bf/n2n2u1']
     jobs  = [(n, p, a, b, bound) for n in names for p, a, b in race_pairs()]
     for res in seams.pmap(_race_job, jobs, ctx.workers):
         ctx.merge(res)
